@@ -25,7 +25,8 @@ CAT = {
     'Ema': ('n', lambda r, h: ([P(r, h)], r.choice([[], [2.0], [1.0], [3.0], [0.5], [2.5]])), ([20], [2.0])),
     'Envelope': ('n', lambda r, h: ([r.choice([0, 1]), P(r, h)], [r.choice([0.0, 5.0, 20.0, 12.5])]), ([0, 20], [20.0])),
     'Hma': ('n', lambda r, h: ([P(r, h)], []), ([9], [])),
-    'Kama': ('n', lambda r, h: ([P(r, h), P(r, 5), P(r, 30)], []), ([10, 2, 30], [])),
+    # (the fast and slow smoothing periods coincide in one configuration out of four: the smoothing constant is then fixed)
+    'Kama': ('n', lambda r, h: (lambda e, f: ([e, f, f if r.random() < 0.25 else P(r, 30)], []))(P(r, h), P(r, 5)), ([10, 2, 30], [])),
     'Kdj': ('hlc', lambda r, h: ([P(r, h), P(r, 6), P(r, 6)], []), ([9, 3, 3], [])),
     'Macd': ('n', lambda r, h: (lambda a: ([a[0], a[1], P(r, h)], []))(two_sorted(r, h)), ([12, 26, 9], [])),
     'MassIndex': ('hl', lambda r, h: ([P(r, h), P(r, h), P(r, h)], []), ([9, 9, 25], [])),
@@ -61,7 +62,7 @@ CAT = {
     'Atr': ('hlc', lambda r, h: ([r.choice(MA_KINDS), P(r, h)], []), ([0, 14], [])),
     'BollingerBandWidth': ('c', lambda r, h: ([P(r, h)], []), ([20], [])),
     'BollingerBands': ('c', lambda r, h: ([P(r, h)], []), ([20], [])),
-    'ChandelierExit': ('hlc', lambda r, h: ([P(r, h)], [r.choice([3.0, 1.0, 2.5, 0.5])]), ([22], [3.0])),
+    'ChandelierExit': ('hlc', lambda r, h: ([P(r, h)], [r.choice([3.0, 1.0, 2.5, 0.5, 0.0, -1.0])]), ([22], [3.0])),
     'DonchianChannel': ('c', lambda r, h: ([P(r, h)], []), ([20], [])),
     'KeltnerChannel': ('hlc', lambda r, h: ([P(r, h)], []), ([20], [])),
     # KeltnerChannel with its public Atr / Ema fields configured separately: [ATR moving-average kind, ATR period, EMA period <= ATR period]
@@ -69,7 +70,7 @@ CAT = {
     'MovingStd': ('n', lambda r, h: ([P(r, h)], []), ([20], [])),
     'PercentB': ('c', lambda r, h: ([P(r, h)], []), ([20], [])),
     'Po': ('hlc', lambda r, h: ([P(r, h) + 1], []), ([14], [])),
-    'SuperTrend': ('hlc', lambda r, h: ([r.choice(MA_KINDS), P(r, h)], [r.choice([2.5, 1.0, 3.0])]), ([5, 14], [2.5])),
+    'SuperTrend': ('hlc', lambda r, h: ([r.choice(MA_KINDS), P(r, h)], [r.choice([2.5, 1.0, 3.0, 0.0, 0.5])]), ([5, 14], [2.5])),
     'UlcerIndex': ('c', lambda r, h: ([P(r, h)], []), ([14], [])),
     'Ad': ('hlcv', lambda r, h: ([], []), ([], [])),
     'Cmf': ('hlcv', lambda r, h: ([P(r, h)], []), ([20], [])),
